@@ -57,8 +57,9 @@ Definition raises : list (string * list string) := [
   ("bytes.decode", [E_UnicodeDecode]);
   ("stream.read", [E_OS]);
   ("lexer.init", ["docutils.utils.code_analyzer.LexerError"]);
-  (* docutils option conversion functions: "raise ValueError or TypeError" (directive how-to) *)
-  ("option_converter", [E_Value; E_Type]);
+  (* docutils option conversion functions: "raise ValueError or TypeError" (directive how-to); several of them
+     raise AttributeError when the value is empty (None): unicode_code, figwidth_value *)
+  ("option_converter", [E_Value; E_Type; "AttributeError"]);
   ("attr_converter", [E_Value]);
   ("tokenize_html", [E_Exception]);
   ("HTMLParser.feed", [E_Exception]);
@@ -121,8 +122,8 @@ Definition declared : list (string * string * string * list string) := [
   ("myst_parser/parsers/parse_html.py", "", "tokenize_html", [E_Exception]);
   ("myst_parser/sphinx_ext/myst_refs.py", "MystReferenceResolver.resolve_myst_ref_any", "resolve_myst_ref_any", [E_NoUri]);
   ("myst_parser/sphinx_ext/myst_refs.py", "MystReferenceResolver._resolve_", "resolve_myst_ref_any", [E_NoUri]);
-  ("myst_parser/sphinx_ext/directives.py", "align", "option_converter", [E_Value; E_Type]);
-  ("myst_parser/sphinx_ext/directives.py", "figwidth_value", "option_converter", [E_Value; E_Type]);
+  ("myst_parser/sphinx_ext/directives.py", "align", "option_converter", [E_Value; E_Type; "AttributeError"]);
+  ("myst_parser/sphinx_ext/directives.py", "figwidth_value", "option_converter", [E_Value; E_Type; "AttributeError"]);
   ("myst_parser/parsers/docutils_.py", "create_myst_config", "config.init", [E_Type; E_Value])
 ].
 (* CLASSES-END *)
